@@ -400,6 +400,10 @@ func (a *allowerContext) update(provider AuthEventProvider) {
 			a.creators = CreatorsFromCreateEvent(e)
 			verImpl := MustGetRoomVersion(e.Version())
 			a.privilegedCreators = verImpl.PrivilegedCreators()
+		} else {
+			// Do not keep judging by what was cached for an earlier event: a reused
+			// context must give the verdict a new one gives.
+			a.createEvent, a.create, a.creators, a.privilegedCreators = nil, CreateContent{}, nil, false
 		}
 	}
 	if e, _ := provider.PowerLevels(); a.powerLevelsEvent == nil || a.powerLevelsEvent != e {
@@ -410,12 +414,16 @@ func (a *allowerContext) update(provider AuthEventProvider) {
 		if p, err := NewPowerLevelContentFromAuthEvents(provider, creator); err == nil {
 			a.powerLevelsEvent = e
 			a.powerLevels = p
+		} else {
+			a.powerLevelsEvent, a.powerLevels = nil, PowerLevelContent{}
 		}
 	}
 	if e, _ := provider.JoinRules(); a.joinRuleEvent == nil || a.joinRuleEvent != e {
 		if j, err := NewJoinRuleContentFromAuthEvents(provider); err == nil {
 			a.joinRuleEvent, _ = provider.JoinRules()
 			a.joinRule = j
+		} else {
+			a.joinRuleEvent, a.joinRule = nil, JoinRuleContent{}
 		}
 	}
 }
